@@ -11,6 +11,7 @@ import Fdo.Drv.Tunnel
 import Fdo.Drv.Handover
 import Fdo.Drv.Chunk
 import Fdo.Drv.Rv
+import Fdo.Drv.Server
 import Fdo.Drv.Fsim
 import Fdo.Drv.Store
 /-
@@ -34,6 +35,7 @@ def handlers : List (String × (String → List String → Option String)) := [
   ("handover.", Drv.Handover.handle),
   ("chunk.", Drv.Chunk.handle),
   ("rv.", Drv.Rv.handle),
+  ("server.", Drv.Server.handle),
   ("fsim.", Drv.Fsim.handle),
   ("store.", Drv.Store.handle),
 ]
